@@ -292,7 +292,7 @@ pub struct RepCase {
 }
 
 pub fn rep_strategy() -> BoxedStrategy<RepCase> {
-    let mix = Mix { update: 10, commit: 7, meldrefresh: 6, meld: 0, refresh: 1, reload: 1, reopen: 3, filecopy: 0, resolve: 3, unstage: 1, stagert: 0, snapshot: 1, timetravel: 0, lowlevel: 0, mergecommit: 0, churn: 0, faultycommit: 0, foreign: 0, faultymeld: 0, snaprace: 0, rich: true, rich_info: true };
+    let mix = Mix { update: 10, commit: 7, meldrefresh: 6, meld: 0, refresh: 1, reload: 1, reopen: 3, filecopy: 0, resolve: 3, unstage: 1, stagert: 0, snapshot: 1, timetravel: 0, lowlevel: 0, mergecommit: 0, churn: 0, faultycommit: 0, foreign: 0, faultymeld: 0, snaprace: 0, tornblock: 0, rich: true, rich_info: true };
     gen::history(&mix, 24).prop_map(|ops| RepCase { ops }).boxed()
 }
 
